@@ -29,13 +29,20 @@ OK_PLAT = ['A', 'G', '#', '$']
 
 
 def decorated_check():
-    """every module-level read_* of the 18 request methods is a wrapper built by remoting_exception_on_parse"""
+    """every reader of the 18 request methods turns ANY failure of its body into the protocol error naming the method
+    (what remoting_exception_on_parse is for), however that wrapper is written: probed with an argument that makes the
+    body fail with a foreign exception (None instead of the token list)"""
+    from lightstreamer_adapter.protocol import RemotingException
     bad = []
     for meth in wire.REQUEST_METHODS:
         f = wire.reader_of(meth)
-        qn = getattr(f, '__qualname__', '')
-        cl = getattr(f, '__closure__', None)
-        if 'remoting_exception_on_parse' not in qn or not cl:
+        try:
+            f(None)
+            bad.append(meth)                       # accepted None as a token list
+        except RemotingException as ex:
+            if not str(ex).endswith('while parsing %s request' % meth):
+                bad.append(meth)
+        except Exception:
             bad.append(meth)
     return bad
 
